@@ -2,9 +2,10 @@
    Statements only.  [Good]/[holds]/[chain_ge] are those of C10; the reference set of a sender
    is its recorded window, moved by every registration, log delivery and push delivery;
    window arithmetic is uint64 (modulo 2^64), as in UpdateOutOfStoreGroupReferences. *)
-From Coq Require Import List NArith Bool.
+From Coq Require Import List NArith Bool String.
 From Wesh Require Import Model.Store Model.C02_Ratchet Model.C10_Crash Model.C14_Push
                          Proofs.C10_Crash Proofs.C14_Push.
+From Wesh Require Import Gen.OutOfStore GenFacts.OutOfStoreFacts.
 Import ListNotations.
 Open Scope N_scope.
 
@@ -74,6 +75,28 @@ Theorem C14_already_received_truthful :
     fst (push_step Nr s e cid) = Some (p, a) -> a = match get_cid s cid with Some _ => true | None => false end.
 Proof. exact already_received_truthful. Qed.
 
+(* ... and in the CURRENT source (generated) the returned flag is decided the same way: it starts as
+   "newly decrypted", is cleared exactly when the key stored under the message's identifier is found,
+   and the precomputed key of the counter is only the fall-back (deciding it from the precomputed key
+   would be wrong: the log path re-creates the precomputed key of a message it has just opened when the
+   chain key lags behind, C14_nonvacuous_edge) *)
+Theorem C14_flag_follows_the_cid_lookup :
+  (oos_flag_init = "decryptionContext{newlyDecrypted: true}" /\
+   oos_first_lookup = "decryptionCtx.messageKey, err = s.getKeyForCID(ctx,c) ; err==nil" /\
+   oos_on_hit = ["decryptionCtx.newlyDecrypted = false"] /\
+   oos_on_miss = ["decryptionCtx.messageKey, err = s.getPrecomputedMessageKey(ctx,groupPublicKey,devicePublicKey,envelope.Counter)";
+                  "if err!=nil"] /\
+   oos_flag_returned = "decryptionCtx.newlyDecrypted")%string.
+Proof. exact flag_follows_the_cid_lookup. Qed.
+
+(* the sequence at the edge of the precomputed keys (W = 2, registered at 0): the push of message 2
+   derives key 3 ahead of the chain key, the log delivers message 3 before 1 and 2, the push of
+   message 3 then says "already received" *)
+Example C14_nonvacuous_edge :
+  prun 2 2 empty_store [PReg 1 0; PPush 1 2 100002; PLog 1 3 100003; PPush 1 3 100003] =
+    [PDone; POk 100002 false; PLogOk 100003; POk 100003 true].
+Proof. vm_compute. reflexivity. Qed.
+
 Theorem C14_unknown_ref_rejected :
   forall Nr s e cid, ref_known s (e_group e) (e_dev e) (e_ctr e) = false -> push_step Nr s e cid = (None, s).
 Proof. exact unknown_ref_rejected. Qed.
@@ -94,3 +117,5 @@ Print Assumptions C14_push_after_log.
 Print Assumptions C14_push_opens.
 Print Assumptions C14_already_received_truthful.
 Print Assumptions C14_unknown_ref_rejected.
+
+Print Assumptions C14_flag_follows_the_cid_lookup.
